@@ -389,9 +389,9 @@ def applyUpdates (from_ : Items) : Items → Items → Res Items
   | (k, diff) :: r, out =>
     match mfind k out with
     | some old =>
-      -- occupied entry: `prepare_item` hands out the *old* slot; `apply_item_delta` compares
-      -- `delta.len()` with `out.len()` (fixed for D19: error instead of assertion)
-      if diff.length ≠ old.length then .panic "apply_item_delta:assert"
+      -- occupied entry: `prepare_item` hands out the *old* slot; a size mismatch is an error
+      -- (since the fix of D19; it used to trip `assert!(delta.len() == out.len())`)
+      if diff.length ≠ old.length then .err .deltaDifferingSizes
       else
         match applyItemDelta (mfind k from_) diff with
         | none => .err .deltaDifferingSizes
@@ -601,8 +601,8 @@ def buildExt (all : Items) : Items → List (Int × Nat) → List Warning → Re
       | some (u, excess) =>
         if (mfind u ext).isSome then .err .duplicateUuidType
         else
-          -- the value inserted is the constant `raw_type_id` (= TYPE_ID_EX), not the item's id (D6)
-          buildExt all r (minsert u (keyType k) ext)
+          -- the item's id is the type number (since the fix of D6)
+          buildExt all r (minsert u (keyId k) ext)
             (ws ++ if excess then [Warning.excessUuidItemData] else [])
     else if keyType k ≥ offsetExt then
       if (mfind (keyOf typeIdEx (keyType k)) all).isNone then .err .missingUuidType
@@ -724,7 +724,7 @@ def Builder.addItem (b : Builder) (tid : TypeId) (id : Nat) (data : List Int) :
     | none =>
       let t := b.nextTypeId
       if ¬ (offsetExt ≤ t) then none
-      else if ¬ (t < 32768) then none
+      else if ¬ (t < 32768) then some (b, some .tooManyItems)   -- type ids used up (fix of D20)
       else
         match b.snap.raw.addItem (keyOf typeIdEx t) (uuidToData u) with
         | .error e => some (b, some e)
@@ -739,9 +739,11 @@ def recycleNext : Items → Nat → Option Nat
   | [], n => some n
   | (k, _) :: r, n =>
     if keyType k ≠ typeIdEx then some n
-    else if n + 256 ≥ 65536 then none
-    else if keyId k < n + 256 then
-      (if keyId k + 1 ≥ 65536 then none else recycleNext r (keyId k + 1))
+    else if offsetExt ≤ keyId k ∧ keyId k < 32768 then
+      -- only ids in `OFFSET_EXTENDED_TYPE_ID..0x8000` count (fix of D20)
+      if n + 256 ≥ 65536 then none
+      else if keyId k < n + 256 then recycleNext r (keyId k + 1)
+      else recycleNext r n
     else recycleNext r n
 
 /-- the re-insertion loop of `Snap::recycle`; `none` = the `unwrap()` panics -/
